@@ -20,7 +20,8 @@ RULE = (
     "fractions between neighbours, before the oldest retained and after the newest publication; grid kinds "
     "NoGrid(0-2D)/uniform/rectilinear/ESRI layouts, unit pairs of one dimension from the catalogue, mask "
     "FLEX/NONE/fixed. Reference model keeps every publication in producer units. non-trivial = >=3 "
-    "publications and a pull strictly between two of them, or a conversion with factor != 1, or a flat "
+    "publications and a pull strictly between two of them (part backlog: 33-90 publications retained when the pulls "
+    "begin), or a conversion with factor != 1, or a flat "
     "payload on an F-order grid with >=2 non-degenerate axes. distinct = canonical JSON."
 )
 ASSUMPTIONS = [
@@ -319,5 +320,30 @@ def case_st(draw):
             "vexp": draw(st.sampled_from([0, 0, 0, -9, 9]))}
 
 
+@st.composite
+def backlog_case(draw):
+    """a producer far ahead of its consumer: 33-90 publications retained when the pulls begin, requests anywhere in
+    the backlog (exact, midpoints, any fraction of an interval)"""
+    grid = ["nogrid", draw(st.sampled_from([[], [3]]))] if draw(st.booleans()) else ["grid", draw(hg.grid_cfg(min_len=2, max_len=3))]
+    grp = draw(st.sampled_from(UNIT_GROUPS))
+    pu, cu = draw(st.sampled_from(grp)), draw(st.sampled_from(grp))
+    form = "scalar" if grid == ["nogrid", []] else "shaped"
+    ops = [["push", 10, form]]
+    for _ in range(draw(st.integers(33, 90))):
+        ops.append(["push", draw(st.sampled_from([10, 20, 70, 7])), form])
+    for _ in range(draw(st.integers(3, 12))):
+        mode = draw(st.sampled_from(["exact", "mid", "frac", "frac", "frac"]))
+        d = draw(st.sampled_from([3, 4, 5, 7, 10]))
+        ops.append(["pull", mode, draw(st.integers(0, 90)), draw(st.integers(0, d)), d])
+        if draw(st.integers(0, 3)) == 0:
+            for _ in range(draw(st.integers(1, 40))):
+                ops.append(["push", draw(st.sampled_from([10, 20, 7])), form])
+    return {"grid": grid, "pu": pu, "cu": cu, "mask": "FLEX", "chain": draw(st.sampled_from([[], [], [["scale", 1.0]]])), "ops": ops,
+            "cgrid": None, "limit": draw(st.sampled_from([None, None, 0, 40.5])), "vexp": 0}
+
+
 def parts():
-    return [Part("histories", hs.with_epoch(check), strategy=hs.plus_epoch(case_st()), budget={"quick": 2000, "thorough": 50000})]
+    return [
+        Part("histories", hs.with_epoch(check), strategy=hs.plus_epoch(case_st()), budget={"quick": 2000, "thorough": 50000}),
+        Part("backlog", hs.with_epoch(check), strategy=hs.plus_epoch(backlog_case()), budget={"quick": 200, "thorough": 8000}, shrink_budget=150),
+    ]
